@@ -375,18 +375,24 @@ struct Item<'a> {
 fn run_items(batch_no: usize, items: &[Item], r: &mut Report) {
     let mut types = vec![json!({"type": "enum", "enum": {"typeName": {"name": "SharedEnum", "package": "com.verif"}, "values": [{"value": "A"}]}})];
     let mut endpoints = vec![];
+    let mut endpoints2 = vec![];
     let mut packed = vec![];
     for it in items {
         let (gi, g) = (&it.gi, it.graph);
         let n = g.len();
         for (k, order) in it.orders.clone().into_iter().enumerate() {
             let names: Vec<String> = (0..n).map(|i| format!("G{}K{}T{}", gi, k, i)).collect();
-            for (i, t) in g.iter().enumerate() {
-                types.push(typedef_ir(&names[i], t, &names));
+            // the order of the type definitions in the IR varies too (odd copies: reversed), and the
+            // endpoints of a copy alternate between two services
+            let mut defs: Vec<Value> = g.iter().enumerate().map(|(i, t)| typedef_ir(&names[i], t, &names)).collect();
+            if k % 2 == 1 {
+                defs.reverse();
             }
+            types.extend(defs);
             let mut eps = vec![];
             for (pos, ti) in order.iter().enumerate() {
                 let ename = format!("g{}k{}p{}", gi, k, pos);
+                let endpoints = if pos % 2 == 1 { &mut endpoints2 } else { &mut endpoints };
                 endpoints.push(json!({
                     "endpointName": ename, "httpMethod": "POST", "httpPath": format!("/g{}/k{}/p{}", gi, k, pos),
                     "args": [{"argName": "arg", "type": tref(&names[*ti]), "paramType": {"type": "body", "body": {}}, "markers": [], "tags": []}],
@@ -397,7 +403,7 @@ fn run_items(batch_no: usize, items: &[Item], r: &mut Report) {
             packed.push(Packed { graph: *gi, order, endpoints: eps });
         }
     }
-    let ir = json!({"version": 1, "errors": [], "types": types, "services": [{"serviceName": {"name": "Svc", "package": "com.verif"}, "endpoints": endpoints}], "extensions": {}});
+    let ir = json!({"version": 1, "errors": [], "types": types, "services": [{"serviceName": {"name": "Svc2", "package": "com.verif"}, "endpoints": endpoints2}, {"serviceName": {"name": "Svc", "package": "com.verif"}, "endpoints": endpoints}], "extensions": {}});
     let dir = scratch(&format!("c08-{}", batch_no));
     let ir_path = dir.join("ir.json");
     std::fs::write(&ir_path, serde_json::to_vec(&ir).unwrap()).unwrap();
@@ -408,7 +414,13 @@ fn run_items(batch_no: usize, items: &[Item], r: &mut Report) {
         let _ = std::fs::remove_dir_all(&dir);
         return;
     }
-    let flags = read_safe_flags(&out.join("com/verif/svc.rs"), "Svc");
+    let flags = read_safe_flags(&out.join("com/verif/svc.rs"), "Svc").and_then(|mut a| {
+        let b = read_safe_flags(&out.join("com/verif/svc2.rs"), "Svc2")?;
+        for (x, y) in a.iter_mut().zip(b) {
+            x.extend(y);
+        }
+        Ok(a)
+    });
     let _ = std::fs::remove_dir_all(&dir);
     let flags = match flags {
         Ok(f) => f,
@@ -695,7 +707,7 @@ pub fn run(args: &Args) -> Report {
     report.bound("member_alphabet", json!(members(2, thorough).iter().map(|m| format!("{:?}", m)).collect::<Vec<_>>()));
     report.bound("orders", "every permutation of the endpoints (= order of first touch), sync trait then async trait");
     report.nontrivial = report.states;
-    report.rule = "states = (type graph, endpoint order): every graph of 2 named types over alias / object (0-2 members) / union (1-2 members) with at least one inter-type reference, and of 3 types with one-member definitions, x every order; reference chains of the listed lengths (object / alias-of-list links, safe or undeclared tail) with endpoints on head / middle / tail in six orders; the generator's `safe` markers (read back from the emitted server traits with syn) are compared with the greatest-fixed-point model for every argument, and must not depend on the order".into();
+    report.rule = "states = (type graph, endpoint order): every graph of 2 named types over alias / object (0-2 members) / union (1-2 members) with at least one inter-type reference, and of 3 types with one-member definitions, x every order (the type definitions of odd copies are listed in reverse, the endpoints of a copy alternate between two services); reference chains of the listed lengths (object / alias-of-list links, safe or undeclared tail) with endpoints on head / middle / tail in six orders; the generator's `safe` markers (read back from the emitted server traits with syn) are compared with the greatest-fixed-point model for every argument, and must not depend on the order".into();
     report.assumptions.push("graphs with more types / members behave like compositions of these (the memo is per type name)".into());
     report
 }
